@@ -1,5 +1,5 @@
 SPECIFICATION Spec
-CONSTANTS Repaired = {2, 4, 5, 7, 9, 10, 11}
+CONSTANTS Repaired = {1, 2, 4, 5, 7, 9, 10, 11}
 INVARIANTS Judge
 POSTCONDITION AllConsumed
 CHECK_DEADLOCK FALSE
